@@ -27,6 +27,8 @@ pub fn cells(tier: Tier) -> Vec<CellPlan> {
     add(cells::vis_empty("C03", Vis::Whitelist), 1, 2, 4, 1.0);
     add(cells::vis_empty("C03", Vis::Blacklist), 1, 2, 4, 1.0);
     add(cells::refs("C03"), 1, 2, 4, 2.0);
+    add(cells::same_frame("C03"), 1, 2, 3, 2.0);
+    add(cells::three_clients("C03"), 0, 1, 3, 2.0);
     add(cells::hierarchy("C03"), 1, 2, 4, 1.0);
     add(cells::rates("C03"), 1, 2, 4, 1.0);
     add(cells::wiring("C03", TickWiring::EveryFrame, 10), 1, 2, 4, 1.0);
